@@ -34,6 +34,10 @@ macro_rules! cfg_huge {
 }
 
 fn main() {
+    vengine::on_worker_stack(real_main);
+}
+
+fn real_main() {
     let mut run = Run::from_args("C02", "c02");
     vcore::core_configs!(cfg, run);
     vcore::huge_configs!(cfg_huge, run);
